@@ -14,6 +14,11 @@ Definition column (x : float) (total : float) : Z :=
   let divisor := f32_div 512 total in
   to_usize (fmin (ffloor (f32_div x divisor)) (f32_sub total 1)).
 
+(* the same quotient without the clamp to the last column: what "column below the key count"
+   means for a stored x position (the clamp would hide a note at x = 512) *)
+Definition column_raw (x : float) (total : float) : Z :=
+  to_usize (ffloor (f32_div x (f32_div 512 total))).
+
 (* (f32::from(column) * (512.0 / total_columns as f32)).ceil() *)
 Definition column_to_pos (c : Z) (total : Z) : float :=
   fceil (f32_mul (of_Z c) (f32_div 512 (of_Z total))).
